@@ -267,6 +267,22 @@ CHECKS["C18"] = dict(
     technique="Lean 4 theorems (expected check/parse outcomes as compositions of the verified recognizer, tree checker and evaluator) + differential comparison + certification of repair/mutate results",
 )
 
+CHECKS["C14"] = dict(
+    category="proof",
+    text="create_fixed_length_tree, the parsing of numeric model values (extract_model_value for int variables incl. the sign / zero-padding "
+    "fallback) and the completion performed by count are searches and are not modelled. Proved: the three result checkers are sound for every "
+    "grammar and tree - fixedLenCheck_sound (closed derivation tree of the nonterminal whose string has exactly n characters), "
+    "numericCheck_sound (closed tree whose string is an optionally signed, possibly zero-padded numeral of the requested integer), "
+    "countCheck_sound (derivation tree with the argument's root, containing the argument, exactly n needle nodes, NO open leaf from which a "
+    "needle is reachable) - and the reachability oracle is exact whenever it answers (reachSet_iff: the certified saturation is reachability "
+    "through one or more derivation steps). Tie: every result of the real helpers on generated (grammar, nonterminal, target) inputs is "
+    "certified; count verdicts on open trees are judged by the same oracle.",
+    design_ref="DESIGN.md section 7 C14",
+    note="Assurance is per explored result (translation-validation style); None / RuntimeError / not-ready answers are not results and are "
+    "only counted (completeness of the searches is not claimed). Calls without an answer within 8 s give no verdict.",
+    technique="Lean 4 theorems about result checkers (length, numeral value, needle count + certified grammar reachability) + certification of every result of the real helpers",
+)
+
 NOT_APPLICABLE = {
     "C22": "reproducibility across fresh processes depends on hash randomisation, Z3 seeds/timeouts and wall-clock time; a functional Lean model would prove determinism vacuously and no executable model can exhibit the failure (DESIGN.md section 8)",
 }
